@@ -66,22 +66,32 @@ func listKey(o map[string]interface{}) (string, bool) {
 
 // keyed reports whether every element of the array is an object with a unique name key.
 func keyed(a []interface{}) (map[string]interface{}, bool) {
+	m, ok, _ := keyedDup(a)
+	return m, ok
+}
+
+// keyedDup additionally tells whether the only obstacle was a repeated name.
+func keyedDup(a []interface{}) (map[string]interface{}, bool, bool) {
 	m := map[string]interface{}{}
+	dup := false
 	for _, e := range a {
 		o, ok := e.(map[string]interface{})
 		if !ok {
-			return nil, false
+			return nil, false, false
 		}
 		k, ok := listKey(o)
 		if !ok {
-			return nil, false
+			return nil, false, false
 		}
-		if _, dup := m[k]; dup {
-			return nil, false
+		if _, d := m[k]; d {
+			dup = true
 		}
 		m[k] = e
 	}
-	return m, len(a) > 0
+	if dup {
+		return nil, false, true
+	}
+	return m, len(a) > 0, false
 }
 
 // covers: every value present in `in` is present, equal, in `got` (objects may have more keys in got).
@@ -130,7 +140,12 @@ func covers(got, in interface{}, path string, miss *[]string) bool {
 			return false
 		}
 		if im, k1 := keyed(iv); k1 {
-			if gm, k2 := keyed(gv); k2 {
+			gm, k2, dup := keyedDup(gv)
+			if dup { // a name-keyed list came back with the same name twice
+				fail(path + "#duplicate-names")
+				return false
+			}
+			if k2 {
 				for k, v := range im {
 					g, present := gm[k]
 					if !present {
@@ -228,6 +243,12 @@ func equalCanon(a, b interface{}, path string, diff *[]string) {
 		bv, ok := b.([]interface{})
 		if !ok || len(av) != len(bv) {
 			add(path + "#len")
+			return
+		}
+		_, _, dupA := keyedDup(av)
+		_, _, dupB := keyedDup(bv)
+		if dupA != dupB {
+			add(path + "#duplicate-names")
 			return
 		}
 		if am, k1 := keyed(av); k1 {
